@@ -15,7 +15,7 @@ import (
 
 func c02TxnCfg() TxnCfg {
 	return TxnCfg{Prop: "C02", MaxSteps: 10, Rollback: true, FailInsert: true, Deletes: true, Inserts: true, Merges: true, OwnUpdates: true, KeyOps: true,
-		NoStoreOnDel: KFActive("f11-store-and-delete-same-txn")}
+		NoStoreOnDel: KFActive("f11-store-and-delete-same-txn"), NoOpAfterLenMerge: KFActive("f15-difflen-merge-reorder")}
 }
 
 // compareResults checks that two executions of the same transaction answered identically.
@@ -31,7 +31,7 @@ func compareResults(a, b []StepResult) string {
 func TestC02(t *testing.T) {
 	f10 := KFActive("f10-inflight-insert-visible")
 	rapid.Check(t, func(t *rapid.T) {
-		sch := genSchema(t, SchemaCfg{Key: 1, Merges: true, MaxCols: 4, MinCols: 1, NoLenMerge: KFActive("f15-difflen-merge-reorder")})
+		sch := genSchema(t, SchemaCfg{Key: 1, Merges: true, MaxCols: 4, MinCols: 1})
 		log := &recLogger{}
 		mc := NewMachine("C02", sch, column.Options{Writer: log})
 		defer mc.Close()
